@@ -43,6 +43,17 @@ def run(tier, seed):
                 exp_ = [abs(xs0[n] - (xs0[n - lag] if n >= lag else z0)) for n in range(len(xs0))]
                 return len(got) == len(exp_) and all(abs(float(g) - float(e)) < 1e-9 for g, e in zip(got, exp_)), "amdf(%d, 1)(.., zero=%s) is not |x[n]-x[n-lag]| with earlier samples = zero" % (lag, z0)
             R.guard("amdf-is-the-moving-average-of-|x[n]-x[n-lag]|", {"lag": lag, "size": 1, "zero": str(z0)}, amz)
+    # scale: long runs (700 samples), sizes 1 / 4 / 16, zero values other than 0 (dyadic data: the float arithmetic is exact)
+    long_x = [F(((7 * i * i + 3 * i) % 17) - 8, 2) for i in range(700)]
+    for z0 in (F(0), F(1), F(-5, 2)):
+        for size in (1, 4, 16):
+            expl = [sum((long_x[j] if j >= 0 else z0) for j in range(n - size + 1, n + 1)) / size for n in range(len(long_x))]
+            for strat in ("deque", "recursive", "fir"):
+                def mvl():
+                    got = list(maverage[strat](size)(list(long_x), zero=z0))
+                    bad = [i for i, (g, e) in enumerate(zip(got, expl)) if abs(float(g) - float(e)) > 1e-9]
+                    return len(got) == len(expl) and not bad, "maverage.%s(%d)(700 samples, zero=%s): first wrong output at %s" % (strat, size, z0, bad[:1])
+                R.guard("moving-average-strategies-equal-the-mean-of-the-last-size-samples", {"strategy": strat, "size": size, "zero": str(z0), "samples": 700}, mvl)
     run_sum = [sum(x[:n + 1], 0) for n in range(N)]
     for strat in ("accumulate", "func", "z"):
         def ac():
